@@ -30,10 +30,11 @@ type pairT struct {
 	Content string `json:"content_quoted"`
 }
 type caseT struct {
-	Kind  string  `json:"kind"` // set | zip
-	Files []pairT `json:"files_in_listing_order"`
-	Mod   string  `json:"module,omitempty"`
-	Ver   string  `json:"version,omitempty"`
+	Kind  string   `json:"kind"` // set | zip
+	Files []pairT  `json:"files_in_listing_order"`
+	Mod   string   `json:"module,omitempty"`
+	Ver   string   `json:"version,omitempty"`
+	Calls []string `json:"call_history,omitempty"`
 }
 
 func refSummary(files map[string]string) string {
@@ -204,8 +205,125 @@ func Run(r *fw.Run) {
 	r.Extra["distinct_sets_in_injectivity_table"] = len(table)
 	r.Sample(mkCase("set", []string{"a  b", "é"}, []string{"x\n", ""}))
 
+	// call histories: the hash is a function of names and bytes only, not of earlier calls
+	historyPart(r)
+
 	// module archives
 	zipPart(r)
+}
+
+type failReader struct {
+	data string
+	n    int
+}
+
+func (f *failReader) Read(p []byte) (int, error) {
+	if f.n >= len(f.data) {
+		return 0, fmt.Errorf("injected read error")
+	}
+	k := copy(p, f.data[f.n:])
+	f.n += k
+	return k, nil
+}
+
+// historyPart runs every sequence of up to 3 (thorough 4) Hash1 calls out of a menu of successful and
+// failing calls (open error, read error after 0 / some / all bytes of a file, refused newline name) in
+// one goroutine and compares every successful call with the formula: no call may leave state behind.
+type hcall struct {
+	name  string
+	files []string
+	open  func(string) (io.ReadCloser, error)
+	fails bool
+	want  string
+}
+
+func historyMenu() []hcall {
+	type call = hcall
+	good := func(name string, m map[string]string) call {
+		var fs []string
+		for k := range m {
+			fs = append(fs, k)
+		}
+		return call{name: name, files: fs, open: func(n string) (io.ReadCloser, error) { return io.NopCloser(strings.NewReader(m[n])), nil }, want: refHash(m)}
+	}
+	big := strings.Repeat("0123456789abcdef", 5000)
+	failing := func(name string, m map[string]string, bad string, after int) call {
+		c := good(name, m)
+		c.fails = true
+		c.open = func(n string) (io.ReadCloser, error) {
+			if n == bad {
+				if after < 0 {
+					return nil, fmt.Errorf("injected open error")
+				}
+				return io.NopCloser(&failReader{data: m[n][:after]}), nil
+			}
+			return io.NopCloser(strings.NewReader(m[n])), nil
+		}
+		return c
+	}
+	m1 := map[string]string{"a": "x", "b": "y\n", "c/d": ""}
+	m2 := map[string]string{"z": big, "a": "other"}
+	return []call{
+		good("G1", m1), good("G2", m2), good("empty", map[string]string{}),
+		failing("open-error", m1, "b", -1),
+		failing("read-error-at-0", m1, "a", 0),
+		failing("read-error-after-1", m1, "b", 1),
+		failing("read-error-after-all", m1, "b", 2),
+		failing("read-error-mid-big", m2, "z", 40000),
+		{name: "newline-name", files: []string{"a", "b\nc"}, open: func(n string) (io.ReadCloser, error) { return io.NopCloser(strings.NewReader("x")), nil }, fails: true},
+	}
+}
+
+// runHistory executes one call history and returns what is wrong with it, if anything.
+func runHistory(menu []hcall, seq []int) (msg string, hist []string) {
+	for _, i := range seq {
+		c := menu[i]
+		hist = append(hist, c.name)
+		files := append([]string(nil), c.files...)
+		got, err := dirhash.Hash1(files, c.open)
+		switch {
+		case c.fails && err == nil:
+			return fmt.Sprintf("after calls %v: the call with an injected failure returned %s and no error", hist, got), hist
+		case !c.fails && (err != nil || got != c.want):
+			return fmt.Sprintf("after calls %v: Hash1 = %s, %v; the documented formula gives %s (the result depends on earlier calls)", hist, got, err, c.want), hist
+		}
+	}
+	return "", hist
+}
+
+func historyPart(r *fw.Run) {
+	menu := historyMenu()
+	depth := r.Pick(3, 4)
+	r.Bounds["history_menu"] = func() []string {
+		var s []string
+		for _, c := range menu {
+			s = append(s, c.name)
+		}
+		return s
+	}()
+	r.Bounds["history_max_calls"] = depth
+	l := fw.NewLocal()
+	defer r.Merge(l)
+	var prev []string
+	enum.Sequences(len(menu), depth, func(seq []int) {
+		if len(seq) == 0 {
+			return
+		}
+		l.States++
+		l.Execs += int64(len(seq))
+		l.Transitions += int64(len(seq))
+		msg, hist := runHistory(menu, seq)
+		if msg != "" {
+			// state may have been left behind by the sequence executed just before this one
+			full := append(append([]string(nil), prev...), hist...)
+			r.Violation("history:"+strings.Join(full, ","), msg+fmt.Sprintf(" [calls made just before in this process: %v]", prev), caseT{Kind: "history", Calls: full})
+			prev = hist
+			return
+		}
+		prev = hist
+		l.Nontrivial++
+		l.Outcomes["history:ok"]++
+	})
 }
 
 type zipSpec struct {
@@ -339,6 +457,25 @@ func Replay(r *fw.Run, raw json.RawMessage) {
 	r.Transitions.Add(1)
 	r.Execs.Add(1)
 	r.Sample(c)
+	if c.Kind == "history" {
+		menu := historyMenu()
+		var seq []int
+		for _, n := range c.Calls {
+			for i, m := range menu {
+				if m.name == n {
+					seq = append(seq, i)
+				}
+			}
+		}
+		// the state, if any, may live in per-P pools: repeat
+		for k := 0; k < 50; k++ {
+			if msg, _ := runHistory(menu, seq); msg != "" {
+				r.Violation("history", msg, c)
+				return
+			}
+		}
+		return
+	}
 	if c.Kind == "zip" {
 		var fs []memfile.File
 		for i := range nm {
